@@ -142,6 +142,18 @@ def run_cases(res: Result, rng: random.Random, n_msgs: int, n_random: int, fails
                         body = wire
                         for code_m, fl in ((257, 0x80), (999, 0x80), (272, 0x00), (8388733, 0x80)):
                             add(f"MSGDEC {(gen.rfc_header(1, 20 + len(body), fl, code_m, 0, 1, 2) + body).hex()} 0")
+    # long values (rendering abbreviates / wraps nothing: any length must render)
+    for ty in range(0, 12):
+        if ty not in by_ty:
+            continue
+        for n in (63, 64, 65, 66, 127, 128, 129, 255, 256, 257, 1000, 4096):
+            for p in (bytes(n), gen.rand_bytes(rng, n), (b"abcdefghij" * 500)[:n], (b"\xc3\xa4" * 2100)[:n]):
+                code, vendor = rng.choice(by_ty[ty])
+                wire = gen.rfc_wire(code, vendor, (0x80 if vendor else 0) | 0x40, p)
+                add(f"AVPSTR {wire.hex()}")
+                add(f"AVPDEC {wire.hex()}")
+        wire = gen.rfc_wire(999999, 0, 0x40, gen.rand_bytes(rng, 200))      # not in the dictionary
+        add(f"AVPSTR {wire.hex()}")
     # grouped payloads: valid member(s) followed by a malformed member
     for i in range(40):
         good = b"".join(gen.avpobj_wire(rng.choice(pool)) for _ in range(rng.randrange(1, 4)))
